@@ -4577,14 +4577,7 @@ namespace detail {
                             case '-':case '0':case '1':case '2':case '3':case '4':case '5':case '6':case '7':case '8':case '9':
                                 ec = jmespath_errc::expected_multi_select_list;
                                 return jmespath_expression{};
-                            case '*':
-                                push_token(resources.create_expression(list_projection()), resources, output_stack, ec);
-                                if (JSONCONS_UNLIKELY(ec)) {return jmespath_expression{};}
-                                state_stack.back() = expr_state::expect_rbracket;
-                                ++p_;
-                                ++column_;
-                                break;
-                            default:
+                            default: // includes '*': after a dot, "[*" starts a multi-select list whose first element is a wildcard
                                 push_token(token<Json>(begin_multi_select_list_arg), resources, output_stack, ec);
                                 if (JSONCONS_UNLIKELY(ec)) {return jmespath_expression{};}
                                 state_stack.back() = expr_state::multi_select_list;
